@@ -1,5 +1,5 @@
 \* C09 leg A thorough: 3 block goroutines, 0..1 series per block with 1..2 chunks, 0..1 postings
-\* without series, series limits {0,1,2,3}, chunk limits {0,1,3}, batch sizes {1,2}, lazy postings on/off,
+\* without series, series limits {0,1,2,3}, chunk limits {0,2}, batch sizes {1,2}, lazy postings on/off,
 \* SkipChunks on/off; all interleavings
 SPECIFICATION Spec
 CONSTANTS Blocks = {"b1", "b2", "b3"}
@@ -7,7 +7,7 @@ CONSTANTS Blocks = {"b1", "b2", "b3"}
           MaxChunks = 2
           MaxExtra = 1
           SLimits = {0, 1, 2, 3}
-          CLimits = {0, 1, 3}
+          CLimits = {0, 2}
           Batches = {1, 2}
           NonAtomic = FALSE
 INVARIANTS C09_SuccessWithinLimits C09_ExceedingFails C09_VerdictIndependentOfSchedule
